@@ -3,6 +3,9 @@
 import json, subprocess
 ALL = ["C%02d" % i for i in range(1, 21)]
 CLAIMED = {
+ "C11": dict(level="exploration", technique="Go race detector + sequential-twin differential over recorded per-client results: concurrent clients on disjoint locations of a fresh engine (sys.System and HTTP) vs the same sequences run alone; barrier start, injected delays, watchdog",
+   text="Rounds of 8-16 clients, each owning one location and starting with the engine's very first requests, are run concurrently under the race detector and compared request by request and by final state with a sequential run on another fresh engine; crashes, hangs and race reports are violations.",
+   note="Schedules are sampled, not enumerated; results are normalised (generated request ids, timing fields); engines are created sequentially by the harness.", ref="§5 C11"),
  "C12": dict(level="exploration", technique="offline linearizability checking (porcupine v1.3.0) of recorded client histories against a sequential model, Go race detector, injected delays at verifhook points, final live-vs-reloaded reads",
    text="Many short concurrent histories on shared ids of one location are recorded at the API boundary with unique written values and checked for linearizability, including agreement of the final in-memory and stored states; the race detector and the child's exit status cover the crash / data-race clauses; a porcupine timeout is inconclusive.",
    note="Schedules are sampled (stress + seeded delays), not enumerated; the sequential model in mon/c12 is trusted; strict-fail/relaxed-pass histories are attributed to the open finding c12.pe-two-instant; expiry during concurrent access is not in the workload.", ref="§5 C12"),
